@@ -211,6 +211,8 @@ impl Check for C15C {
             InitialDoc { text: "<r x=\"]]>\"><t>v</t></r>", foreign: None, expanded: false },
             // an entity that is fine in content and not in an attribute value ('<' in its replacement text), referenced in content
             InitialDoc { text: "<!DOCTYPE r [<!ENTITY e \"&#60;b\">]><r>&e;<t/></r>", foreign: None, expanded: false },
+            // one attribute name with two declared types: a node moved from one element type to the other is normalized anew
+            InitialDoc { text: "<!DOCTYPE r [<!ATTLIST r n CDATA #IMPLIED><!ATTLIST t n NMTOKENS #IMPLIED>]><r n=\" a  b \"><t/></r>", foreign: None, expanded: false },
             // a written attribute that has a default in the DTD: removing it brings the default back, in the DOM as in a re-parse
             InitialDoc { text: "<!DOCTYPE r [<!ATTLIST r n CDATA \"d\" m NMTOKENS \" k  l \">]><r n=\"v\"><t/></r>", foreign: None, expanded: false },
         ];
@@ -248,8 +250,8 @@ impl Check for C15C {
     fn meta(&self) -> Meta {
         Meta {
             rule: "explicit-state BFS over histories of creation (create_text_node / comment / cdata_section / processing_instruction / element / attribute with every name and data string of the alphabet), attachment (append_child of the created node under every attached element), attribute setting, value setting and character-data editing (append_data, insert_data at every offset, delete_data with every offset and count, set_data, split_text) on documents whose nodes already hold the first half of a forbidden sequence (text 'a]]', comment 'a-x', CDATA 'a]]', PI data 'a?', attribute values with quotes). After every call that reports success and changes the document: document.to_string() must be accepted completely by XmlDocument::from_raw, and what the DOM reports for the edited document (element and attribute names, attribute values, merged text, CDATA, comment data, PI target and data) must equal what the re-parsed document reports. A call may refuse instead; a panic is reported by C13. Non-trivial = the call succeeded or changed the state.",
-            bounds_quick: "6 initial documents (DTD defaults behind a written attribute; an entity usable in content only), depth 2, 11 string pieces, 8 names, 1 created node per history",
-            bounds_thorough: "6 initial documents, depth 3, 20 string pieces, 8 names, 1 created node per history",
+            bounds_quick: "7 initial documents (DTD defaults behind a written attribute; an entity usable in content only; one attribute name with two declared types), depth 2, 11 string pieces, 8 names, 1 created node per history",
+            bounds_thorough: "7 initial documents, depth 3, 20 string pieces, 8 names, 1 created node per history",
             assumptions: &["only the attached document is serialized; a detached node with unrepresentable data is judged once it is attached"],
             unbounded_total: false,
         }
